@@ -36,12 +36,12 @@ def HtlcInitGenesis_cond_7 (supply_IncomingSupply : Coin) (supply_CurrentSupply 
 def HtlcInitGenesis_cond_8 (supply_OutgoingSupply : Coin) (limit_Limit : Int) : Option (Bool) := do
   some (Int_GT supply_OutgoingSupply.amount limit_Limit)
 
-def MtInitGenesis_mtSequence_1 (mtSequence : Nat) : Option (Nat) := do
-  some (U64_Add mtSequence (1 : Nat))
-
 /-- argument 1 of `k.SetDenomSequence` -/
 def MtInitGenesis_call_SetDenomSequence_1_arg1 (read_len_data_Collections : Int) : Option (Nat) := do
   some (U64_ofI64 (I64_Add read_len_data_Collections (1 : Int)))
+
+def MtInitGenesis_mtSequence_1 (mtSequence : Nat) : Option (Nat) := do
+  some (U64_Add mtSequence (1 : Nat))
 
 /-- argument 1 of `k.SetMTSequence` -/
 def MtInitGenesis_call_SetMTSequence_1_arg1 (mtSequence : Nat) : Option (Nat) := do
@@ -51,18 +51,18 @@ def MtInitGenesis_call_SetMTSequence_1_arg1 (mtSequence : Nat) : Option (Nat) :=
 def CoinswapInitGenesis_call_setSequence_1_arg1 (genState_Sequence : Nat) : Option (Nat) := do
   some genState_Sequence
 
-/-- argument 1 of `k.SetSequence` -/
-def FarmInitGenesis_call_SetSequence_1_arg1 (data_Sequence : Nat) : Option (Nat) := do
-  some data_Sequence
-
 /-- branch condition: `ctx.BlockHeight() <= pool.EndHeight` -/
 def FarmInitGenesis_cond_1 (read_ctx_BlockHeight : Int) (pool_EndHeight : Int) : Option (Bool) := do
   some (decide (read_ctx_BlockHeight ≤ pool_EndHeight))
+
+/-- argument 1 of `k.SetSequence` -/
+def FarmInitGenesis_call_SetSequence_1_arg1 (data_Sequence : Nat) : Option (Nat) := do
+  some data_Sequence
 
 /-- targets the translator refused, with the reason (must be empty) -/
 def untranslated : List String := []
 
 /-- names of the translated definitions -/
-def translated : List String := ["HtlcInitGenesis_cond_1(htlc_State)", "HtlcInitGenesis_cond_2(htlc_Transfer)", "HtlcInitGenesis_cond_3(supply_IncomingSupply,incomingSupply)", "HtlcInitGenesis_cond_4(supply_OutgoingSupply,outgoingSupply)", "HtlcInitGenesis_cond_5(supply_CurrentSupply,limit_Limit)", "HtlcInitGenesis_cond_6(supply_IncomingSupply,limit_Limit)", "HtlcInitGenesis_cond_7(supply_IncomingSupply,supply_CurrentSupply,limit_Limit)", "HtlcInitGenesis_cond_8(supply_OutgoingSupply,limit_Limit)", "MtInitGenesis_mtSequence_1(mtSequence)", "MtInitGenesis_call_SetDenomSequence_1_arg1(read_len_data_Collections)", "MtInitGenesis_call_SetMTSequence_1_arg1(mtSequence)", "CoinswapInitGenesis_call_setSequence_1_arg1(genState_Sequence)", "FarmInitGenesis_call_SetSequence_1_arg1(data_Sequence)", "FarmInitGenesis_cond_1(read_ctx_BlockHeight,pool_EndHeight)"]
+def translated : List String := ["HtlcInitGenesis_cond_1(htlc_State)", "HtlcInitGenesis_cond_2(htlc_Transfer)", "HtlcInitGenesis_cond_3(supply_IncomingSupply,incomingSupply)", "HtlcInitGenesis_cond_4(supply_OutgoingSupply,outgoingSupply)", "HtlcInitGenesis_cond_5(supply_CurrentSupply,limit_Limit)", "HtlcInitGenesis_cond_6(supply_IncomingSupply,limit_Limit)", "HtlcInitGenesis_cond_7(supply_IncomingSupply,supply_CurrentSupply,limit_Limit)", "HtlcInitGenesis_cond_8(supply_OutgoingSupply,limit_Limit)", "MtInitGenesis_call_SetDenomSequence_1_arg1(read_len_data_Collections)", "MtInitGenesis_mtSequence_1(mtSequence)", "MtInitGenesis_call_SetMTSequence_1_arg1(mtSequence)", "CoinswapInitGenesis_call_setSequence_1_arg1(genState_Sequence)", "FarmInitGenesis_cond_1(read_ctx_BlockHeight,pool_EndHeight)", "FarmInitGenesis_call_SetSequence_1_arg1(data_Sequence)"]
 
 end Irismod.Gen.PureGenesis
